@@ -76,6 +76,31 @@ def strip_comments(txt):
     return "".join(out)
 
 
+def deps_of(vfile, seen=None):
+    """Transitive closure of the project files a .v file requires (by parsing Require sentences)."""
+    seen = set() if seen is None else seen
+    vfile = os.path.normpath(vfile)
+    if vfile in seen or not os.path.exists(os.path.join(COQ, vfile)):
+        return seen
+    seen.add(vfile)
+    txt = strip_comments(open(os.path.join(COQ, vfile)).read())
+    for sent in re.split(r"\.(?:\s+|$)", txt):
+        m = re.match(r"^\s*(?:From\s+(\w+)\s+)?Require\s+(?:Import\s+|Export\s+)?(.*)$", sent, re.S)
+        if not m:
+            continue
+        frm = m.group(1)
+        for name in m.group(2).split():
+            parts = name.split(".")
+            if frm == LOGICAL:
+                pass
+            elif frm is None and parts[0] == LOGICAL:
+                parts = parts[1:]
+            else:
+                continue
+            deps_of(os.path.join(*parts) + ".v", seen)
+    return seen
+
+
 def forbidden_gate(files=None):
     """Return list of (file, line, word) for forbidden declarations in the development."""
     bad = []
@@ -221,7 +246,7 @@ def prove(ctx, prop_file, extra_targets=(), allowed_axioms=(), timeout=1800):
     """Stage (2): build the property file, run the gates, register obligations on ctx.
     Returns (ok, info) where info carries errors for the replay when not ok."""
     target = prop_file[:-2] + ".vo"
-    bad = forbidden_gate()
+    bad = forbidden_gate(sorted(deps_of(prop_file)))
     info = {"forbidden": bad, "errors": [], "axioms": {}}
     ok, log, errs = make([target] + [t for t in extra_targets], timeout=timeout)
     info["errors"] = errs
